@@ -310,6 +310,10 @@ def run(case):
         try:
             if form == "values":
                 pts, ulist = values_form()
+                if case["wseed"] % 3 == 1:
+                    # points as tuples, units as Unit objects instead of lists / strings
+                    pts = [tuple(pt) for pt in pts]
+                    ulist = None if ulist is None else tuple(u.Unit(x) for x in ulist)
                 r = cube.crop_by_values(*pts, units=ulist, **kw)
                 item = cube._get_crop_by_values_item(*pts, units=ulist, **kw)
             else:
